@@ -129,6 +129,33 @@ def yaw_error(s1, s2):
     return Out(parts=parts, obs={"fwd": e_fwd, "bwd": e_bwd}, known=known)
 
 
+TILTED = {"flat_30": (4, 0, 0, 1), "rolled": (20, 2, 0, 5), "pitched": (20, 0, -3, -30), "both": (10, 1, 2, 40),
+          "back": (1, 0, 0, -9)}
+
+
+def _yaw_zyx(q):
+    """heading convention of the library: the yaw of pyquaternion's yaw-pitch-roll decomposition of the orientation"""
+    w, x, y, z = (float(v) for v in q)
+    n = math.sqrt(w * w + x * x + y * y + z * z)
+    w, x, y, z = w / n, x / n, y / n, z / n
+    return math.atan2(2 * (w * z - x * y), 1 - 2 * (y * y + z * z))
+
+
+def aph_weight_tilted(frame, qe, qg):
+    """boxes with roll / pitch (exact 3-D orientations from a catalogue - no symbolic orientation here, the positions are
+    symbolic): the weight depends on the two yaws only."""
+    est = DynamicObject(0, FRAMES[frame], (real("e_x", -50, 50), 1.0, 0.0), build.mkrot(TILTED[qe]),
+                        Shape(ShapeType.BOUNDING_BOX, (2.0, 4.0, 1.5)), None, 0.9, Label(CAR, "car"), uuid="e")
+    gt = DynamicObject(0, FRAMES[frame], (real("g_x", -50, 50), 1.0, 0.0), build.mkrot(TILTED[qg]),
+                       Shape(ShapeType.BOUNDING_BOX, (2.0, 4.0, 1.5)), None, 0.9, Label(CAR, "car"), uuid="g")
+    w = TPMetricsAph().get_value(_result(est, gt, frame))
+    d = abs(_yaw_zyx(TILTED[qe]) - _yaw_zyx(TILTED[qg]))
+    d = 2 * math.pi - d if d > math.pi else d
+    parts = {"weight_is_1_minus_yaw_difference_over_pi": L.close(w, 1 - d / math.pi, 1e-9),
+             "symmetric": L.close(w, TPMetricsAph().get_value(_result(gt, est, frame)), 1e-9)}
+    return Out(parts=parts, obs={"w": w})
+
+
 def obligations(pid, tier):
     signs = [(1, 1), (1, -1), (-1, 1), (-1, -1)]
     return [
@@ -141,6 +168,10 @@ def obligations(pid, tier):
         Obligation("heading_two_poses", heading_two_poses, extras=_extras,
                    cases=[dict(s1=s, k1=a, k2=b) for s in (1, -1) for a, b in ((0, 1), (2, 3), (1, 0))],
                    desc="heading of one map-frame object under two ego poses, one call after the other"),
+        Obligation("aph_weight_tilted", aph_weight_tilted, extras=_extras,
+                   cases=[dict(frame=f, qe=a, qg=b) for f in FRAMES for a in TILTED for b in TILTED if a != b],
+                   desc="weight for boxes with roll / pitch (catalogue of 5 exact 3-D orientations, all ordered pairs): "
+                        "depends on the yaw difference only"),
         Obligation("yaw_error", yaw_error, extras=_extras, cases=[dict(s1=a, s2=b) for a, b in signs],
                    desc="reported yaw error lies in [-pi, pi] with magnitude d, in both orders"),
     ]
@@ -156,7 +187,8 @@ def meta(pid):
                   "common/transform.py"],
         "bounds": "yaw_est, yaw_gt: all reals in (-pi, pi] (pi = the double math.pi as an exact rational); quaternion signs "
                   "(+,+),(+,-),(-,+),(-,-); frames base_link and map, ego yaw symbolic in (-pi, pi]; linear real arithmetic with ite and integer floor",
-        "outside": ["roll/pitch other than 0 (the rotation stand-in is yaw-only in angle mode)", "float rounding"],
+        "outside": ["symbolic orientations with roll/pitch (the angle-mode stand-in is yaw-only; tilted boxes are covered by a "
+                    "catalogue of 5 exact 3-D orientations, concretely)", "float rounding"],
         "stand_ins": ["pyquaternion -> Rot in angle mode: yaw_pitch_roll = (theta,0,0), radians = sign*|theta| "
                       "(pyquaternion's wrap(2*atan2(|v|, w)) for a yaw-only quaternion), rotation matrix entries are "
                       "fresh (cos, sin) symbols mapped back to the angle by Quaternion(matrix=...)",
